@@ -37,3 +37,26 @@ t = inst["GSUB"].table
 print("instance records:", [([(c.AxisIndex, c.FilterRangeMinValue, c.FilterRangeMaxValue) for c in (r.ConditionSet.ConditionTable if r.ConditionSet else [])],
                              [s.Feature.LookupListIndex for s in r.FeatureTableSubstitution.SubstitutionRecord]) for r in t.FeatureVariations.FeatureVariationRecord],
       "default rvrn lookups:", [fr.Feature.LookupListIndex for fr in t.FeatureList.FeatureRecord if fr.FeatureTag == "rvrn"])
+
+# ---- second variant: the always-true record is itself the first one that applies at the new default; the
+# instancer folds it into the default FeatureList (correct) but still appends the catch-all record with the
+# OLD default, which shadows the new default wherever the remaining conditional records do not match.
+print("\nvariant 2: pin wght=250, restrict wdth to (200, 500, 1000)")
+lim = {"wght": 250, "wdth": (200, 500, 1000)}
+inst = instancer.instantiateVariableFont(TTFont(io.BytesIO(orig)), dict(lim))
+b = io.BytesIO(); inst.save(b); ib = b.getvalue()
+
+
+def shape2(data, loc, text):
+    font = hb.Font(hb.Face(hb.Blob(data))); font.set_variations(loc)
+    buf = hb.Buffer(); buf.add_str(text); buf.guess_segment_properties(); hb.shape(font, buf, {})
+    return [order[i.codepoint] for i in buf.glyph_infos]
+
+
+for wdth in (250, 500, 600, 900):
+    o, i = shape2(orig, {"wght": 250, "wdth": wdth}, "IS"), shape2(ib, {"wdth": wdth}, "IS")
+    print("wdth=%d  original(wght=250): %s   instance: %s   %s" % (wdth, o, i, "" if o == i else "<-- DIFFERS"))
+t = inst["GSUB"].table
+print("instance records:", [([(c.AxisIndex, c.FilterRangeMinValue, c.FilterRangeMaxValue) for c in (r.ConditionSet.ConditionTable if r.ConditionSet else [])],
+                             [s.Feature.LookupListIndex for s in r.FeatureTableSubstitution.SubstitutionRecord]) for r in t.FeatureVariations.FeatureVariationRecord],
+      "default rvrn lookups:", [fr.Feature.LookupListIndex for fr in t.FeatureList.FeatureRecord if fr.FeatureTag == "rvrn"])
